@@ -17,7 +17,7 @@ LEVEL = "exploration"
 DECIDING = ["runs", "fs_events"]
 MIN_DECIDED_RATIO = 0.9
 RULE = (
-    "histories of runs; step = (group g1|g2, new|reused instance, clock same|+1s|to-13:00|to-00:00:01, method drawn so that adjacent "
+    "histories of runs; step = (group g1|g1_b, new|reused instance, clock same|+1s|to-13:00|to-00:00:01, method drawn so that adjacent "
     "method pairs vary). quick: all histories of length 3 (first step canonical: new instance), thorough: all of length 4 plus random "
     "histories of length 5-10. Non-trivial: length >= 2; distinct = distinct (step tuples incl. methods)."
 )
@@ -26,7 +26,7 @@ ASSUMPTIONS = [
     "archive/manifest.json (the global list of runs, appended by design) is not part of any run's results",
 ]
 
-GROUPS = ["g1", "g2"]
+GROUPS = ["g1", "g1_b"]  # (one name is a prefix of the other: archive/g1 and archive/g1_b)
 INST = ["new", "reused"]
 CLOCK = ["same", "+1s", "to13", "to00"]
 START = _dt.datetime(2025, 3, 10, 7, 30, 0, tzinfo=_dt.timezone.utc)
@@ -102,8 +102,8 @@ def run_history(h, agg):
     cps.reset_sandbox()
     cs = env.new_csvpaths()
     cps.add_file(cs, "data", [["a", "b"], ["1", "x"], ["2", "y"], ["3", "z"]])
-    cs.paths_manager.add_named_paths(name="g1", paths=["~ id: m0 ~ $[*][yes()]", '~ id: m1 ~ $[1*][#a == "2"]'])
-    cs.paths_manager.add_named_paths(name="g2", paths=["~ id: m0 ~ $[*][push(\"s\", #a)]"])
+    cs.paths_manager.add_named_paths(name=GROUPS[0], paths=["~ id: m0 ~ $[*][yes()]", '~ id: m1 ~ $[1*][#a == "2"]'])
+    cs.paths_manager.add_named_paths(name=GROUPS[1], paths=["~ id: m0 ~ $[*][push(\"s\", #a)]"])
     inst = None
     observer = env.new_csvpaths()  # a long-lived instance that only ever resolves references
     _NOW["t"] = START
@@ -193,6 +193,36 @@ def run_history(h, agg):
                         w["resolved_to"] = got
                         w["expected_run_without_data"] = pick["dir"]
                         return "reference" + which.replace(":", "-") + "-wrong-run", w
+    # ---- a reference resolved *inside* a run: the other group takes the most recent run of a group as its input,
+    #      starting in the very second in which that run started (same directory name under another group)
+    for g in GROUPS:
+        mine = [r_ for r_ in runs if r_["group"] == g]
+        if not mine:
+            continue
+        pick = max(mine, key=lambda r_: (r_["time"], r_["seq"]))
+        if sum(1 for r_ in mine if r_["time"] == pick["time"]) > 1:
+            continue
+        want = os.path.join("archive", g, pick["dir"], "m0", "data.csv")
+        if not os.path.exists(want):
+            continue
+        other = [gg for gg in GROUPS if gg != g][0]
+        _NOW["t"] = pick["time"]
+        ref = f"${g}.results.{pick['time'].strftime('%Y-%m-')}:last.m0"
+        runner = env.new_csvpaths()
+        with hooks.recording(agg) as rec:
+            lines, exc = cps.run_method(runner, "collect_paths", other, ref)
+        agg.count("references_resolved_inside_a_run")
+        w["step"] = "final: " + other + " run on " + ref
+        if exc is not None:
+            w["exc"] = f"{type(exc).__name__}: {str(exc)[:300]}"
+            return "reference-last-inside-a-run-raises", w
+        first = rec.lines[0]["id"] if rec.lines else None
+        read = [[str(v) for v in ev["line"]] for ev in rec.lines if ev["id"] == first]
+        if read != cps.read_csv(want):
+            w.update({"reference": ref, "read": read[:4], "most_recent_run_data": cps.read_csv(want)[:4], "runs": [(r_["dir"], str(r_["time"])) for r_ in mine]})
+            return "reference-last-inside-a-run", w
+        runs.append({"group": other, "time": pick["time"], "dir": None, "method": "collect_paths", "seq": len(runs)})
+        break
     return None, None
 
 
@@ -210,6 +240,7 @@ def run_shard(spec, agg):
 
     install_clock()
     hooks.install_fs_audit()
+    hooks.install_line_hook()
     for i, h in enumerate(histories(spec["tier"], spec["seed"])):
         if i % spec["nshards"] != spec["shard"]:
             continue
@@ -221,6 +252,7 @@ def replay(case, agg):
 
     install_clock()
     hooks.install_fs_audit()
+    hooks.install_line_hook()
     run_one(case["history"], agg)
 
 
